@@ -27,6 +27,33 @@ CHECKS = {
                       "under prepare+step are not handed to tsrun_run (it has no budget) and count as inconclusive",
         "assumptions": ["the scripted host (harness/src/engine.rs) behaves identically over the Rust and the C API"],
     },
+    "C04": {
+        "engines": NATIVE,
+        "golden": "C04.tsv",
+        "level": "exploration",
+        "rule": "declarations printed twice from one abstract description, as TypeScript and as the JavaScript the TypeScript compiler "
+                "emits: ALL valid enum shapes of up to 4 members over the member-kind alphabet {auto, numeric, negative, "
+                "fractional, duplicate value, constant expression over the previous member, computed, string, quoted name}, 84 merged "
+                "enums (2 and 3 declaration blocks, at top level and in a function), const enums (inlined uses), 22 namespace shapes "
+                "(exported / local consts, lets, functions, classes, enums, nested, local and merged namespaces, references rewritten to "
+                "N.x) and seeded random namespace trees, merging of namespaces with functions, classes and enums, dotted and `module` "
+                "namespaces, enums and namespaces inside functions, classes with parameter properties (every modifier alone, all ordered "
+                "pairs, longer lists with defaults referring to earlier parameters and to this, derived classes) and abstract classes; "
+                "each followed by one observer (keys in order and sorted, every member forwards and backwards, in, JSON.stringify, "
+                "values, calls, typeof of hidden names). Every (declaration, context) pair is distinct; all are non-trivial",
+        "exhaustive": "enum shapes up to the stated length; modifier pairs of parameter properties",
+        "floor": {"quick": 4000, "thorough": 7000},
+        "technique": "runtime monitoring: translation-pair oracle (TypeScript form vs its specified JavaScript emit on tsrun, and vs the "
+                     "emit on the reference engine through committed goldens), member-wise observers",
+        "level_text": "The TypeScript form must produce exactly the observations of its JavaScript emit, on tsrun itself and on the "
+                      "reference engine; deviating declarations are ledgered by exact case and observed output.",
+        "level_note": "no TypeScript compiler is available offline: the emit is produced by the generator following the compiler's "
+                      "documented output (enum IIFE with reverse mappings, namespace IIFE with N.x rewriting, constructor prologue "
+                      "this.x = x after super(), erased abstract members); key order is compared both as is and sorted so that an "
+                      "ordering difference is told apart from a missing member",
+        "assumptions": ["emit_* in harness/src/checks/c04.rs follow tsc (ES2015+ target, no useDefineForClassFields interplay: classes "
+                        "do not mix parameter properties with field initialisers)", "node v20 evaluates the emitted JavaScript correctly"],
+    },
     "C05": {
         "engines": NATIVE,
         "level": "exploration",
@@ -180,7 +207,7 @@ CHECKS = {
                 "with collect() after host actions; plus the 59 await/concurrency programs of C07 under a reduced policy set. A run "
                 "is non-trivial when at least one suspension was observed; (program, policy) pairs are distinct by construction",
         "exhaustive": "the policy product above for every program with <= 3 deferrable orders",
-        "floor": {"quick": 5000, "thorough": 8000},
+        "floor": {"quick": 4000, "thorough": 7000},
         "technique": "runtime monitoring: online ledger automaton over the boundary history (StepResult lists, fulfil/settle calls, "
                      "H4 quiescence at Complete), bounded-progress counters instead of wall-clock",
         "level_text": "Exactly-once, fresh ids, intact payloads, cancellations of issued orders only and once, no Suspended with "
@@ -411,7 +438,7 @@ CHECKS = {
                 "characters in comments and in strings on the fault's line, a multi-line template before the fault, a leading comment "
                 "block). A case is non-trivial when the run failed with an error that carries a location; cases are distinct by construction",
         "exhaustive": "fault kind x layout x {script, module} x depth {0,1,3}; all ordered pairs of trampolined link kinds x layout x {1,2} modules; syntax fault x layout x {entry, imported module}",
-        "floor": {"quick": 5000, "thorough": 8000},
+        "floor": {"quick": 4000, "thorough": 7000},
         "technique": "runtime monitoring: generator-known source map (marks carried through a layout engine) as the oracle for reported "
                      "positions, frame lists, function names and files of failing runs",
         "level_text": "Every reported (file, line, column) must lie inside the marked offending expression of its frame (the planted "
